@@ -280,6 +280,20 @@ func c18Gen(rng *kit.RNG, idx int) c18Case {
 		c.Pre = append(c.Pre, c18Pre{Path: "stray-dir/inner-link", Kind: "symlink", Target: "@BOX@/outside"})
 	}
 
+	// two independent mutations may have produced equal names (e.g. the same odd name twice)
+	var scan func(ns []*c18Node)
+	scan = func(ns []*c18Node) {
+		seen := map[string]bool{}
+		for _, n := range ns {
+			if seen[n.Name] {
+				c.feature("dup")
+			}
+			seen[n.Name] = true
+			scan(n.Children)
+		}
+	}
+	scan(c.Tree)
+
 	// ---- options
 	c.Overwrite = kit.Pick(rng, []string{"always", "always", "if-changed", "if-newer", "never"})
 	c.Sparse = rng.Chance(1, 4)
